@@ -646,3 +646,33 @@ fn c05_salt_and_hash_length_limits() {
     }
     kani::cover!(n == 255, "maximal salt");
 }
+
+// @funcs: Txt::parse, Txt::as_flat_slice, Txt::len, Txt::iter (TxtIter::next), Txt::iter_charstrs
+// @bound: every octet string of 0..=4 symbolic octets parsed as TXT RDATA (RDLENGTH 0 included, which the reader accepts): every read accessor of an accepted value is total - as_flat_slice is Some exactly for a single character string covering the data, the string iterator yields exactly the strings of the wire form
+// @outside: longer data; text(), Display (heap / fmt)
+#[kani::proof]
+#[kani::unwind(8)]
+fn c05_txt_parsed_value_is_usable() {
+    let raw = Bytes::<4>::any();
+    let mut p = Parser::from_ref(raw.s());
+    if let Ok(v) = Txt::parse(&mut p) {
+        assert!(p.remaining() == 0);
+        let flat = v.as_flat_slice();
+        let single = raw.n >= 1 && raw.d[0] as usize == raw.n - 1;
+        assert!(flat.is_some() == single);
+        if let Some(f) = flat {
+            assert!(f.len() == raw.n - 1);
+        }
+        assert!(v.len() == raw.n);
+        let mut pos = 0;
+        let mut k = 0;
+        for s in v.iter_charstrs() {
+            assert!(pos < raw.n);
+            assert!(s.len() == raw.d[pos] as usize);
+            pos += s.len() + 1;
+            k += 1;
+        }
+        assert!(pos == raw.n && k <= 4);
+    }
+    kani::cover!(raw.n == 0 && Txt::parse(&mut Parser::from_ref(raw.s())).is_ok(), "empty TXT RDATA accepted by the reader");
+}
